@@ -199,6 +199,56 @@ def recording_calls():
     return res
 
 
+# ---------------------------------------------------------------------------------------------------------------
+# Census of the node TRAITS.  Every reservation `check_space(E::n_active * size)` derives from the compile-time trait
+# `n_active` of the expression type; the scratch slots and location slots a node hands to its operands derive from `n_scratch`
+# and `n_arrays`.  An inner node must define each trait as the sum over its operand TYPES (+ its local constant).  For every
+# class that defines `static const int n_active = …` the type names T appearing as `T::n_active` (or `expr_cast<T>::n_active`),
+# `T::n_arrays` and `T::n_scratch` in the three definitions are collected and the class is classified:
+#   leaf            no operand type in any trait (arrays, scalars, indices)
+#   sumConsistent   the operand types of n_active are exactly (as a multiset) those of n_arrays, and those of n_scratch are among them
+#   boolInactive    n_active is the literal 0 although n_arrays names operand types: the bool-valued nodes (comparisons, logical
+#                   operations), which never carry derivatives
+#   BROKEN          anything else (OuterProduct::n_active = LArray::n_active + LArray::n_active was a seeded regression: nothing
+#                   is reserved for the right operand's operations)
+TRAIT_DEF = re.compile(r"static\s+const\s+int\s+(n_active|n_arrays|n_scratch)\s*=\s*([^;]*);")
+
+
+def trait_nodes():
+    res = []
+    for f in sorted(glob.glob(os.path.join(REPO, "include", "adept", "*.h"))):
+        base = os.path.basename(f)
+        txt = strip_comments(open(f).read())
+        defs = [(m.start(), m.group(1), " ".join(m.group(2).split())) for m in TRAIT_DEF.finditer(txt)]
+        # group the three definitions of one class: consecutive definitions no more than 30 lines apart, one n_active per group
+        groups, cur = [], []
+        for d in defs:
+            if cur and (txt.count("\n", cur[-1][0], d[0]) > 30 or d[1] in [x[1] for x in cur]):
+                groups.append(cur); cur = []
+            cur.append(d)
+        if cur:
+            groups.append(cur)
+        for g in groups:
+            tr = {k: e for _, k, e in g}
+            if "n_active" not in tr:
+                continue
+            types = {}
+            for k in ("n_active", "n_arrays", "n_scratch"):
+                e = tr.get(k, "")
+                types[k] = sorted(re.findall(r"(?:expr_cast<\s*)?([A-Za-z_]\w*)\s*>?\s*::\s*%s\b" % k, e))
+            if not types["n_active"] and not types["n_arrays"] and not types["n_scratch"]:
+                kind = "leaf"
+            elif types["n_active"] and types["n_active"] == types["n_arrays"] and set(types["n_scratch"]) <= set(types["n_active"]):
+                kind = "sumConsistent"
+            elif not types["n_active"] and tr["n_active"].strip() == "0" and types["n_arrays"]:
+                kind = "boolInactive"
+            else:
+                kind = "BROKEN"
+            line = txt.count("\n", 0, g[0][0]) + 1
+            res.append((base, line, types["n_active"], types["n_arrays"], types["n_scratch"], kind, tr.get("n_active", "")))
+    return res
+
+
 def main():
     try:
         ss = sites()
@@ -223,6 +273,15 @@ def main():
     lines.append(",\n".join('  ("%s", "%s", "%s", .%s)' % (b, fn, cal, kind.lower()) for b, fn, cal, ln, kind in rc))
     lines.append("]")
     lines.append("")
+    tn = trait_nodes()
+    lst = lambda xs: "[" + ", ".join('"%s"' % x for x in xs) + "]"
+    lines.append("inductive TraitKind | leaf | sumConsistent | boolInactive | broken deriving DecidableEq, Repr")
+    lines.append("/-- census of the node traits: (file, operand types of n_active, of n_arrays, of n_scratch, classification); see translate/reserve.py -/")
+    lines.append("def traitNodes : List (String × List String × List String × List String × TraitKind) := [")
+    lines.append(",\n".join('  ("%s", %s, %s, %s, .%s)' % (b, lst(a), lst(r), lst(sc), "broken" if k == "BROKEN" else k)
+                             for b, ln, a, r, sc, k, e in tn))
+    lines.append("]")
+    lines.append("")
     lines.append("end Adept.RecBuf.Sites")
     os.makedirs(os.path.dirname(OUT), exist_ok=True)
     new = "\n".join(lines) + "\n"
@@ -232,6 +291,10 @@ def main():
     print("reserve sites: %d, recording calls: %d (%s)%s" % (len(ss), len(rc), ", ".join(
         "%s %d" % (k, sum(1 for x in rc if x[4] == k)) for k in ("reserved", "self", "leaf", "UNRESERVED")),
         "" if old == new else " (regenerated, changed)"))
+    print("trait nodes: %d (%s)" % (len(tn), ", ".join("%s %d" % (k, sum(1 for x in tn if x[5] == k)) for k in ("leaf", "sumConsistent", "boolInactive", "BROKEN"))))
+    for b, ln, a, r, sc, k, e in tn:
+        if k == "BROKEN":
+            print("  BROKEN traits: %s:%d n_active = %s (operand types %s, n_arrays names %s)" % (b, ln, e, a, r))
     for b, fn, cal, ln, kind in rc:
         if kind == "UNRESERVED":
             print("  UNRESERVED recording call: %s:%d %s() calls %s" % (b, ln, fn, cal))
